@@ -32,6 +32,7 @@ def run(chk, tier, seed):
     else:
         scns = storegen.small_forests_exhaustive(4, batches=(1, 2, 3, storegen.BIG)) + \
             storegen.forest_scenarios(800, seed, maxnodes=5, maxtrees=6)
+    scns = scns + storegen.c09_window_scenarios(tier, seed)
     st = {}
     n, ndrift = sc.run_and_validate(chk, scns, CLAUSES, stats=st)
     from storecli import cli_family
@@ -41,7 +42,8 @@ def run(chk, tier, seed):
            "transitions": m["transitions"] + st.get("conf_generated", 0) + st.get("obs_generated", 0),
            "traces_validated_against_impl": n, "evaluations": n, "distinct_nontrivial": nontriv,
            "rule": "all pairs of call-tree shapes up to the tier's size (same / different workflow name) x batch sizes, "
-                   "plus seeded forests of 1-5 traces with repeated shapes, each in four presentations (order of ingestion, batch size); non-trivial = store "
+                   "plus seeded forests of 1-5 traces with repeated shapes, each in four presentations (order of ingestion, batch size); plus stores with time buffer 1-2 holding traces "
+                   "before / after / straddling the buffered window next to same-shaped traces inside it; non-trivial = store "
                    "with at least two traces",
            "cli_histories": ncli, "cli_process_runs": ncliruns, "model_runs": m["runs"], "model_drift_executions": ndrift, "conformance_action_counts": st.get("actions", {}),
            "exhaustive": False}
